@@ -8,7 +8,7 @@ Import ListNotations.
 Open Scope string_scope.
 
 Definition c07_unproved : list string :=
-  [ "FindResponse"; "FindUniqueRequest"; "FindUniqueResponse"; "LockingAndxRequest"; "NegotiateRequest";
+  [ "FindResponse"; "FindUniqueResponse"; "LockingAndxRequest"; 
     "NegotiateResponse"; "OpenAndxRequest"; "QueryInformation2Response"; "ReadRawRequest"; "RenameRequest";
-    "SearchRequest"; "SessionSetupAndxRequest"; "SessionSetupAndxResponse"; "SetInformationRequest";
+    "SessionSetupAndxRequest"; "SessionSetupAndxResponse"; "SetInformationRequest";
     "TransactionRequest"; "WriteAndCloseRequest"; "WriteAndxRequest"; "WriteRawRequest"; "WriteRequest" ].
